@@ -3,8 +3,9 @@ from props import _positions as P
 
 THEOREMS = ['C15_window_shift', 'C15_from_text_slice_coord', 'C15_dyn_bytes_eq_str', 'C15_bytes_eq_str',
             'C15_lookbehind_refuted', 'C15_example', 'C15_parse_window_shift', 'C15_driver_ignores_positions',
-            'C15_propagate_commutes', 'C15_parse_example']
-GEN_DEPS = ['LineCounter', 'LexStep', 'DynStep']
+            'C15_propagate_commutes', 'C15_parse_example', 'C15_slice_normalisation', 'C15_cast_from_complete',
+            'C15_slice_out_of_range_refuted', 'C15_slice_example']
+GEN_DEPS = ['LineCounter', 'LexStep', 'DynStep', 'PropPos', 'TokenFields', 'CounterCopy', 'TextSlice']
 RULE = ('[routes: every comparison is also made through parse_interactive+feed_token+feed_eof, forks (copy(), copy.copy) '
         'finished separately, ImmutableInteractiveParser, copy.deepcopy(tree), Tree.copy(), pickle round trip and scan(), '
         'each also against parse() of the same input; token values must keep the exact Python type of the buffer] '
@@ -198,11 +199,14 @@ def run_complete_slice(g, parser, lexer, text, rep, extra):
 
 def witness(g, parser, lexer, text, rep, window, api, extra, complete_slice=False):
     return dict(grammar=g, parser=parser, lexer=lexer, text=text, rep=rep, window=list(window) if window else None,
-                api=api, extra=[[k, int(v)] for k, v in extra], complete_slice=complete_slice)
+                api=api, extra=[[k, v if isinstance(v, str) else int(v)] for k, v in extra], complete_slice=complete_slice)
 
 
 def run_witness(w):
     """the differential on one witness -> list of (stage, message)"""
+    if 'slice' in w:
+        return [('representation-differential', 'TextSlice(buf, %r, %r) is not buf[start:end]' % tuple(w['slice']))] \
+            if replay_slice(w) else []
     msgs, _, _ = compare(w['grammar'], w['parser'], w['lexer'], w['text'], tuple((k, v) for k, v in w.get('extra', [])),
                          w['rep'], tuple(w['window']) if w.get('window') else None, w.get('complete_slice', False),
                          api=w.get('api', 'parse'))
@@ -258,24 +262,118 @@ class Diff:
                                                                         P.coq_ptree(rt, r, True, vt)), w))
 
     def col_add(self, out, w):
-        tr = out['tracer']
-        col = self.col
-        for rec in tr.counters.values():
-            if not rec.get('foreign'):
-                col.traces.append((P.coq_trace(rec), w))
-        for run in tr.runs.values():
-            c = P.coq_lex_case(run, tr)
-            if c:
-                col.lexes.append((c, w))
-        toks = P.result_tokens(out)
-        if out['dynamic'] and toks:
-            col.dyns.append((P.coq_dyn_case(out['buf'], toks), w))
+        self.col.add(out, w)
 
 
 F9_CASES = [
     ('F9:lookbehind-outside-window', 'start: FOO\nFOO: /\\bfoo/\n', 'foo', ('x', '')),
     ('F9:caret-at-window-start', 'start: FOO\nFOO: /^foo/\n', 'foo', ('x', '')),
 ]
+
+
+F51_GRAMMAR = 'start: "\\xe9" "a"\n'
+F51_TEXT = '\xe9a'
+
+
+def f51_outcomes(lexer):
+    """(str outcome, bytes outcome) of the F51 witness under lexer"""
+    from lark import Lark
+    res = []
+    for use_bytes in (False, True):
+        try:
+            lk = Lark(F51_GRAMMAR, parser='lalr', lexer=lexer, use_bytes=use_bytes)
+            t = lk.parse(F51_TEXT.encode('latin-1') if use_bytes else F51_TEXT)
+            res.append(('ok', [P.as_text(c.value) if hasattr(c, 'value') else str(c) for c in t.children], t.data))
+        except Exception as e:   # noqa
+            res.append(('error', type(e).__name__))
+    return res
+
+
+def f51(ctx):
+    for lexer in ('basic', 'contextual'):
+        s_out, b_out = f51_outcomes(lexer)
+        ctx.count('exotic-F51', key=(F51_GRAMMAR, lexer), nontrivial=True, outcome='%s/%s' % (s_out[0], b_out[0]))
+        if s_out != b_out:
+            ctx.violation('representation-differential',
+                          dict(f51=True, grammar=F51_GRAMMAR, text=F51_TEXT, lexer=lexer, parser='lalr'), True,
+                          'str run: %r, bytes run (use_bytes=True, latin-1 encoded): %r' % (s_out, b_out),
+                          key='F51:bytes-anon-nonascii-group-name')
+
+
+SLICE_G = 'start: pair ("," pair)*\npair: NAME "=" NUMBER\nNAME: /[a-z]+/\nNUMBER: /[0-9]+/\n%ignore /[ \\n]+/\n'
+SLICE_BUF = 'x, a=1,\nb=2 ,'
+
+
+def slices(ctx, col):
+    """every (start, end) in [-n-1, n+1] x ({None} u [-n-1, n+1]) on a fixed buffer, str and bytes: the TextSlice must
+    denote Python's buf[start:end] (in range), parse like the normalised slice, and agree with the regenerated model"""
+    from lark.utils import TextSlice
+    cases = []
+    for rep in ('str', 'bytes'):
+        buf = SLICE_BUF.encode('latin-1') if rep == 'bytes' else SLICE_BUF
+        n = len(buf)
+        lk = P.get_lark(SLICE_G, 'lalr', 'contextual', rep == 'bytes')
+        memo = {}
+
+        def outcome(ts):
+            key = (ts.start, ts.end)
+            if key not in memo:
+                try:
+                    memo[key] = ('ok', P.tree_sig(lk.parse(ts), buf))
+                except Exception as e:      # noqa
+                    memo[key] = ('error', P.error_sig(e))
+            return memo[key]
+        for s_ in range(-n - 1, n + 2):
+            for e_ in [None] + list(range(-n - 1, n + 2)):
+                try:
+                    ts = TextSlice(buf, s_, e_)
+                    obs = (ts.start, ts.end)
+                except AssertionError:
+                    obs = None
+                in_range = -n <= s_ <= n and (e_ is None or -n <= e_ <= n)
+                if rep == 'str':
+                    cases.append(('SliceCase %s %s %s %s %s %s' % (
+                        P.Z(n), P.Z(s_), 'None' if e_ is None else '(Some %s)' % P.Z(e_),
+                        'None' if obs is None else '(Some (%s, %s))' % (P.Z(obs[0]), P.Z(obs[1])),
+                        'true' if obs and ts.is_complete_text() else 'false', P.Z(obs[1] - obs[0] if obs else 0)),
+                        dict(slice=[s_, e_], rep=rep)))
+                if not in_range:
+                    continue
+                s2, e2, _ = slice(s_, e_).indices(n)
+                nontriv = s_ < 0 or e_ is None or e_ < 0
+                ctx.count('slice-normalisation', key=(rep, s_, e_), nontrivial=nontriv,
+                          slice_kind=('neg-start' if s_ < 0 else 'pos-start') + ('/none-end' if e_ is None else '/neg-end' if e_ < 0 else '/pos-end'))
+                w = dict(slice=[s_, e_], rep=rep)
+                if obs != (s2, e2):
+                    ctx.violation('representation-differential', w, True,
+                                  'TextSlice(buf, %r, %r) denotes [%r, %r), Python slicing gives [%d, %d)' % (s_, e_, obs and obs[0], obs and obs[1], s2, e2))
+                    continue
+                if s2 > e2:
+                    continue
+                if outcome(ts) != outcome(TextSlice(buf, s2, e2)) or \
+                        (s_ < 0 or e_ is None or e_ < 0) and len(ts) != e2 - s2:
+                    ctx.violation('representation-differential', w, True,
+                                  'parse(TextSlice(buf, %r, %r)) differs from parse(TextSlice(buf, %d, %d))' % (s_, e_, s2, e2))
+    col.cases['slice'] += cases
+
+
+def replay_slice(w):
+    from lark.utils import TextSlice
+    buf = SLICE_BUF.encode('latin-1') if w['rep'] == 'bytes' else SLICE_BUF
+    s_, e_ = w['slice']
+    lk = P.get_lark(SLICE_G, 'lalr', 'contextual', w['rep'] == 'bytes')
+    s2, e2, _ = slice(s_, e_).indices(len(buf))
+    try:
+        ts = TextSlice(buf, s_, e_)
+    except AssertionError:
+        return True
+
+    def outcome(x):
+        try:
+            return ('ok', P.tree_sig(lk.parse(x), buf))
+        except Exception as e:      # noqa
+            return ('error', P.error_sig(e))
+    return (ts.start, ts.end) != (s2, e2) or (s2 <= e2 and outcome(ts) != outcome(TextSlice(buf, s2, e2)))
 
 
 def correspond(ctx):
@@ -352,6 +450,11 @@ def correspond(ctx):
     for key, g, text, win in F9_CASES:
         for parser, lexer in (('lalr', 'basic'), ('lalr', 'contextual'), ('earley', 'basic')):
             d.case('exotic-F9', g, parser, lexer, text, (), 'str', win, key=key)
+    # TextSlice index normalisation (negative / None indices), systematic
+    slices(ctx, d.col)
+    # F51 (listed finding): an anonymous non-ASCII literal written with an escape in an ASCII grammar gets a non-ASCII
+    # auto name, which is not a valid group name in a bytes regexp: str parses, bytes raises re.error at construction
+    f51(ctx)
     # regression witness of F30 (repaired): complete-text TextSlice under the dynamic lexers
     for lexer in P.DYNAMIC:
         for rep in ('str', 'bytes'):
@@ -382,6 +485,11 @@ def correspond(ctx):
 
 def replay(ctx, case):
     w = case['witness']
+    if 'slice' in w:
+        return replay_slice(w)
+    if w.get('f51'):
+        s_out, b_out = f51_outcomes(w['lexer'])
+        return s_out != b_out
     if 'grammar' not in w:
         return False
     return bool(run_witness(w))
